@@ -39,7 +39,10 @@ Shapes == {"nest-bind",        \* {{{...}}} bind          nesting = size
            "bind-self-multi",  \* a procedure stored in min(size, 24) of its own slots, then bound
            "default-handler",  \* errordict /typecheck get exec   (default handler without a pending error)
            "t1-seac-chain",    \* Type 1 font: size glyphs, each the seac composite of its predecessor with itself
-           "t1-seac-self"}     \* Type 1 font: a composite of itself, two composites of each other
+           "t1-seac-self",     \* Type 1 font: a composite of itself, two composites of each other
+           "alias-cycle",      \* /a {a} 0 get def a : a name whose value is the executable name itself (budget must strike)
+           "alias-cycle-2",    \* /a {b} 0 get def /b {a} 0 get def b
+           "t1-seac-codes"}    \* Type 1 fonts whose seac names unassigned codes of StandardEncoding, with every encoding form
 
 VARIABLE pick
 Init == pick = <<>>
